@@ -4,7 +4,9 @@
    contain no "::", so the join is injective).  Entries are made in the order the parser moves elements into the AST:
    per definition the members of its members (parameters, then return members; the fields of enumerators), then its
    members, then the definition; the file's module after all its definitions.  A later entry replaces an earlier one with
-   the same skey (HashMap::insert).  Model only. *)
+   the same skey (HashMap::insert).  Outside the model: the sixteen primitive types, entered first under their keywords; a top-level
+   module named like one (`module \int32`) replaces that entry whatever the order of the files (the parser no longer reads it: fix 21e7062).
+   Model only. *)
 From Coq Require Import List Bool Arith.
 Import ListNotations.
 
